@@ -55,8 +55,16 @@ class Result:
         }
         return rid
 
+    def _rule(self, rid):
+        # a rule function run on its own (rules/common.share) may report under a rule its parent check registers
+        if rid not in self.rules:
+            cur = self._cur
+            self.rule(rid, "(registered by the caller)", floor=0)
+            self._cur = cur
+        return self.rules[rid]
+
     def ok(self, instance: str, rid: str | None = None):
-        r = self.rules[rid or self._cur]
+        r = self._rule(rid or self._cur)
         r["instances"] += 1
         r["discharged"] += 1
         r["keys"].append(instance)
@@ -65,7 +73,7 @@ class Result:
 
     def bad(self, instance: str, where: str, msg: str, expected="", found="", path=None, rid=None):
         rid = rid or self._cur
-        r = self.rules[rid]
+        r = self._rule(rid)
         r["instances"] += 1
         r["violations"] += 1
         r["keys"].append(instance)
